@@ -2145,7 +2145,17 @@ def check_C18(tier):
     inp = "".join(json.dumps({"id": c["id"], "src": c["src"]}) + "\n" for c in safe).encode()
     p = common.sh([common.BIN + "/yharness", "views"], inp=inp, timeout=900)
     blocks = parse_blocks(p.stdout.decode(errors="replace"), "CASE", "ENDCASE")
+    mo = common.sh([common.YMODEL], inp=p.stdout, timeout=900)
+    mblocks = parse_blocks(mo.stdout.decode(errors="replace"), "CASE", "ENDCASE")
     violations, ties, samples = [], [], []
+    # the verified views model (C18_views) must render exactly the graph DrawGrammar builds
+    for c in safe:
+        il = sorted(l for l in blocks.get(c["id"], []) if l.startswith("HDOT"))
+        ml = sorted(l[2:] for l in mblocks.get(c["id"], []) if l.startswith("M HDOT"))
+        if il and il != ml:
+            k = next((i for i in range(max(len(il), len(ml))) if i >= len(il) or i >= len(ml) or il[i] != ml[i]), 0)
+            ties.append({"what": "views model differs from DrawGrammar's graph", "case": c["id"], "src": c["src"][:1500],
+                         "impl": il[k][:200] if k < len(il) else "<missing>", "model": ml[k][:200] if k < len(ml) else "<missing>"})
     nstates = 0
     accepted = 0
     for c in safe:
@@ -2263,9 +2273,9 @@ def check_C18(tier):
                            ["symbol names do not contain the renderers' own separators (| { } < > quotes)"])
 
 
-C18_THEOREMS = []
-C18_MODULES = []
-C18_LEVEL = "translation_validation"
+C18_THEOREMS = ["Y.Props.C18_views", "Y.Props.C18_determines", "Y.Props.C18_determined", "Y.Props.dot_edges", "Y.Props.dot_nodes"]
+C18_MODULES = ["Yv.Props.C18"]
+C18_LEVEL = "proof"
 
 
 # ------------------------------------------------------------------------------------------- C19
